@@ -79,12 +79,15 @@ func (w *verifSink) Write(p []byte) (int, error) {
 // verifFragReader delivers data in fragments: while it has `short` short reads left,
 // every Read that could return n > 1 bytes chooses (vrt.Choose: each alternative is
 // explored) to return all n, or a shorter count. With `anyCount` the shorter count is
-// any of 1..n-1, otherwise one of 1, 2, n-1. It never returns (0, nil).
+// any of 1..n-1, otherwise one of 1, 2, n-1. While it has `empty` empty reads left, any
+// Read may also return (0, nil), which io.Reader allows (an io.Pipe does it for a
+// zero-length Write of the peer): callers must treat it as "nothing happened".
 type verifFragReader struct {
 	v        *vrt.T
 	data     []byte
 	pos      int
 	short    int
+	empty    int
 	anyCount bool
 	reads    int
 }
@@ -100,6 +103,10 @@ func (r *verifFragReader) Read(p []byte) (int, error) {
 	}
 	if len(p) < n {
 		n = len(p)
+	}
+	if r.empty > 0 && r.v.Choose("empty read", 2) == 1 {
+		r.empty--
+		return 0, nil
 	}
 	if r.short > 0 && n > 1 {
 		k := n
